@@ -1,13 +1,12 @@
 import MakoModel.Props.C16
 #print axioms MakoModel.C16.mutex_discipline
 #print axioms MakoModel.C16.mutex_released_on_every_path
+#print axioms MakoModel.C16.recheck_outside_mutex
 #print axioms MakoModel.C16.no_deadlock
 #print axioms MakoModel.C16.returns_complete
 #print axioms MakoModel.C16.built_by_construction_only
-#print axioms MakoModel.C16.returns_fresh_partial
-#print axioms MakoModel.C16.returns_fresh_counterexample
+#print axioms MakoModel.C16.returns_fresh
 #print axioms MakoModel.C16.first_requests_compile_once
 #print axioms MakoModel.C16.lru_bound_quiescent
 #print axioms MakoModel.C16.renders_independent
-#print axioms MakoModel.C16.uri_cache_reads_succeed_partial
-#print axioms MakoModel.C16.uri_cache_counterexample
+#print axioms MakoModel.C16.uri_cache_reads_succeed
